@@ -6,6 +6,7 @@
  *    D img data            the destroy callback ran
  * Glyph cache: gcreate (create + freeze), ginsert / gbad (an insert whose private copy cannot be made), glookup,
  * gcomp (composite_glyphs / _no_mask with every present glyph), gremove, gthaw (thaw + freeze), gdestroy.
+ * gcreate v picks the concrete keys (choose_keys); every call logs the table pressure before it ("press").
  * img is the pool slot of the image (0: an image that is not in the pool, e.g. a glyph-cache copy).
  * The driver never judges; the script comes from the specification, which knows which slots are alive.
  *
@@ -17,6 +18,11 @@
 #include "pixman-private.h"
 
 #define NSLOT 8
+#define NKEY 15			/* glyph keys 1..NKEY */
+int _pixman_verif_glyph_dump (pixman_glyph_cache_t *cache, int max, int *kind, const void **font_keys,
+			      const void **glyph_keys, int *counters, int *mru, int *n_mru);
+unsigned int _pixman_verif_glyph_hash (const void *font_key, const void *glyph_key);
+static intptr_t gkey[NKEY + 1];	/* concrete glyph key of the specification's key k */
 static pixman_image_t *img[NSLOT + 1];
 static uint32_t ext_buf[NSLOT + 1][64];		/* caller-owned pixel buffers ("bitsx") */
 static pixman_glyph_cache_t *cache;
@@ -169,14 +175,37 @@ do_clip (pixman_image_t *im, int v, int cv)
     return r;
 }
 
+/* the concrete keys of a new cache.  layout 0: key k is glyph key k (the library's hash decides where it lives);
+ * layout 1: key k is the first glyph key whose home slot is k mod HASH_SIZE, so that no two keys collide and
+ * the specification's generator (LifeGen, pressure mode) knows which removals leave a tombstone */
 static void
-log_op (const char *op, int i, int j, int v, int cv, int ret)
+choose_keys (int layout)
+{
+    int k, hsize = _pixman_verif_glyph_dump (cache, 0, NULL, NULL, NULL, NULL, NULL, NULL);
+    intptr_t g = 1;
+    for (k = 1; k <= NKEY; k++)
+    {
+	if (!layout)
+	{
+	    gkey[k] = k;
+	    continue;
+	}
+	while ((int)_pixman_verif_glyph_hash ((void *)0x100, (void *)g) != k % hsize)
+	    g++;
+	gkey[k] = g++;
+    }
+}
+
+static void
+log_op (const char *op, int i, int j, int v, int cv, int ret, const int *press)
 {
     int n;
     vt_begin ("Op");
     vt_str ("op", op); vt_int ("i", i); vt_int ("j", j); vt_int ("v", v); vt_int ("cv", cv);
     vt_bool ("ret", ret);
     vt_bool ("ovf", la_overflow);
+    /* the glyph table before the call: live glyphs, tombstones, high- and low-water mark (hook H1) */
+    fprintf (vt_out, ",\"press\":[%d,%d,%d,%d]", press[0], press[1], press[3], press[4]);
     fputs (",\"sub\":[", vt_out);
     for (n = 0; n < la_nsub; n++)
 	fprintf (vt_out, "%s{\"k\":\"%c\",\"a\":%d,\"b\":%d,\"c\":%d}", n ? "," : "",
@@ -235,6 +264,7 @@ main (int argc, char **argv)
     while (fscanf (in, "%31s", op) == 1)
     {
 	int i, j, v, cv, ret = 1;
+	int press[5] = { 0, 0, 0, 0, 0 };
 	if (!strcmp (op, "reset"))
 	{
 	    if (fscanf (in, "%127s", name) != 1) return 3;
@@ -252,7 +282,9 @@ main (int argc, char **argv)
 	    continue;
 	}
 	if (fscanf (in, "%d %d %d %d", &i, &j, &v, &cv) != 4) return 3;
-	if (i < 0 || i > NSLOT || j < 0 || j > NSLOT) return 3;
+	if (i < 0 || i > NSLOT || j < 0 || j > (op[0] == 'g' ? NKEY : NSLOT)) return 3;
+	if (cache)
+	    _pixman_verif_glyph_dump (cache, 0, NULL, NULL, NULL, press, NULL, NULL);
 	la_clear ();
 	if (!strcmp (op, "create"))
 	{
@@ -312,7 +344,7 @@ main (int argc, char **argv)
 	    /* cv = 1: a zero-size image is inserted instead of the pool image (the copy has no pixel buffer) */
 	    pixman_image_t *arg = cv == 1 ? pixman_image_create_bits (PIXMAN_a8, 0, 0, NULL, 0) : img[i];
 	    la_on = 1;
-	    ret = pixman_glyph_cache_insert (cache, (void *)0x100, (void *)(intptr_t)j, 1, 1, arg) != NULL;
+	    ret = pixman_glyph_cache_insert (cache, (void *)0x100, (void *)gkey[j], 1, 1, arg) != NULL;
 	    la_on = 0;
 	    if (cv == 1)
 		pixman_image_unref (arg);
@@ -324,7 +356,7 @@ main (int argc, char **argv)
 	    pixman_image_t *wide = pixman_image_create_bits (PIXMAN_a8r8g8b8, 1 << 26, 1, one_pixel, 4);
 	    if (!wide) return 3;
 	    la_on = 1;
-	    ret = pixman_glyph_cache_insert (cache, (void *)0x100, (void *)(intptr_t)j, 0, 0, wide) != NULL;
+	    ret = pixman_glyph_cache_insert (cache, (void *)0x100, (void *)gkey[j], 0, 0, wide) != NULL;
 	    la_on = 0;
 	    pixman_image_unref (wide);
 	}
@@ -336,6 +368,8 @@ main (int argc, char **argv)
 		pixman_glyph_cache_freeze (cache);
 	    la_on = 0;
 	    ret = cache != NULL;
+	    if (cache)
+		choose_keys (v);
 	}
 	else if (!strcmp (op, "gdestroy"))
 	{
@@ -355,17 +389,17 @@ main (int argc, char **argv)
 	else if (!strcmp (op, "glookup"))
 	{
 	    la_on = 1;
-	    ret = pixman_glyph_cache_lookup (cache, (void *)0x100, (void *)(intptr_t)j) != NULL;
+	    ret = pixman_glyph_cache_lookup (cache, (void *)0x100, (void *)gkey[j]) != NULL;
 	    la_on = 0;
 	}
 	else if (!strcmp (op, "gcomp"))
 	{
-	    /* draw every glyph the cache reports for the keys 1..NSLOT (v = 0: through a mask, 1: directly) */
-	    pixman_glyph_t gl[NSLOT];
+	    /* draw every glyph the cache reports for the keys 1..NKEY (v = 0: through a mask, 1: directly) */
+	    pixman_glyph_t gl[NKEY];
 	    int k, n = 0;
-	    for (k = 1; k <= NSLOT; k++)
+	    for (k = 1; k <= NKEY; k++)
 	    {
-		const void *g = pixman_glyph_cache_lookup (cache, (void *)0x100, (void *)(intptr_t)k);
+		const void *g = pixman_glyph_cache_lookup (cache, (void *)0x100, (void *)gkey[k]);
 		if (g)
 		{
 		    gl[n].x = 1 + n;
@@ -384,12 +418,12 @@ main (int argc, char **argv)
 	else if (!strcmp (op, "gremove"))
 	{
 	    la_on = 1;
-	    pixman_glyph_cache_remove (cache, (void *)0x100, (void *)(intptr_t)j);
+	    pixman_glyph_cache_remove (cache, (void *)0x100, (void *)gkey[j]);
 	    la_on = 0;
 	}
 	else
 	    return 3;
-	log_op (op, i, j, v, cv, ret);
+	log_op (op, i, j, v, cv, ret, press);
 	la_clear ();
     }
     vt_close ();
